@@ -106,6 +106,11 @@ func (a *Allocator) Allocate(hint net.IPNet) (ret net.IPNet, err error) {
 
 // Free returns the given prefix to the available pool if it was taken.
 func (a *Allocator) Free(prefix net.IPNet) error {
+	// a prefix larger than one allocation is not a block (nor part of one):
+	// freeing it must not release the block that happens to start at its base
+	if ones, bits := prefix.Mask.Size(); bits == 8*net.IPv6len && ones < a.page {
+		return fmt.Errorf("Could not find prefix in pool: %s is larger than an allocation (/%d)", &prefix, a.page)
+	}
 	base := prefix.IP.Mask(prefix.Mask)
 	// toIndex computes an absolute distance: a prefix below the pool would
 	// otherwise alias a block inside it
